@@ -238,7 +238,13 @@ func VH_C03_sibling_hooks() {
 		p = p.Hook(vActHook{id: i})
 	}
 	a := p.Hook(vActHook{id: 7})
-	b := p.Hook(vActHook{id: 8}, vActHook{id: 9})
+	var b Logger
+	two := zzverif.Choice(2) == 1
+	if two {
+		b = p.Hook(vActHook{id: 8}, vActHook{id: 9})
+	} else {
+		b = p.Hook(vActHook{id: 8}) // fits into spare capacity of the parent's slice if it is reused
+	}
 	var l Logger
 	var want []int
 	for i := 0; i < n; i++ {
@@ -248,7 +254,11 @@ func VH_C03_sibling_hooks() {
 	case 0:
 		l, want = a, append(want, 7)
 	case 1:
-		l, want = b, append(want, 8, 9)
+		if two {
+			l, want = b, append(want, 8, 9)
+		} else {
+			l, want = b, append(want, 8)
+		}
 	case 2:
 		l = p
 	}
